@@ -20,6 +20,19 @@ from concurrent.futures import ThreadPoolExecutor
 from .. import core
 from . import c17
 
+
+def _sh(cmd, **kw):
+    """core.sh, repeated when the process cannot be started (fork / pipe failure on an overloaded machine)"""
+    import time
+    for attempt in range(4):
+        try:
+            return core.sh(cmd, **kw)
+        except OSError:
+            if attempt == 3:
+                raise
+            time.sleep(2 + 3 * attempt)
+
+
 ID = "C29"
 LEVEL = "other"
 RULE = ("one case = one command (text, --xml or --dump; samples directory, cfg test files with their library, generated "
@@ -157,13 +170,13 @@ def layouts(tier):
 
 
 def have_setarch():
-    rc, so, se = core.sh(["setarch", "x86_64", "-R", "true"])
+    rc, so, se = _sh(["setarch", "x86_64", "-R", "true"])
     return rc == 0
 
 
 def run_layout(cmd, cwd, lay, no_aslr_ok):
     pre = lay["pre"] if (lay["pre"] and no_aslr_ok) else []
-    rc, so, se = core.sh(pre + cmd, cwd=cwd, timeout=600, env=lay["env"])
+    rc, so, se = _sh(pre + cmd, cwd=cwd, timeout=600, env=lay["env"])
     return rc, so, se
 
 
@@ -406,7 +419,7 @@ def argument_order_cases(ctx, res, drv):
                 a2 = [a for a in args if os.path.exists(os.path.join(d, a))]
                 if not a2:
                     break
-                rc, so, se = core.sh([ctx.cppcheck, "--template={file}:{line}:{id}"] + lib_opts + a2, cwd=d, timeout=120)
+                rc, so, se = _sh([ctx.cppcheck, "--template={file}:{line}:{id}"] + lib_opts + a2, cwd=d, timeout=120)
                 real = []
                 for r in checking_order(so):
                     if r not in real:
